@@ -42,6 +42,7 @@ type Call struct {
 	Leaf   string  `json:"leaf,omitempty"`
 	Cs     uint32  `json:"codesep,omitempty"`
 	Script bool    `json:"script,omitempty"`
+	NoSpec bool    `json:"nospec,omitempty"` // legacy script code of tens of thousands of operations: the Lean Spec (quadratic parser) is asked in thorough only
 }
 
 type JIn struct {
@@ -201,7 +202,7 @@ func modelAsk(k *Call, cmd string) (kind, pre, dig string) {
 	case "tap":
 		ah := "nil"
 		if k.Annex != nil {
-			ah = hx(k.execdata().M_annex_hash)
+			ah = modelAnnexHash(unhx(*k.Annex)) // Model.annexHashOf (compared with the reference there)
 		}
 		rep = o.MustAsk(fmt.Sprintf("%s %s %s %d %d %d %s", cmd, ah, vlib.Hex(unhx(k.Leaf)), k.Cs, k.Idx, k.Ht, b01(k.Script)))
 	}
@@ -328,6 +329,7 @@ func runCase(c *Case) []string {
 	shared := c.real()
 	txh := vlib.ShortHash([]byte(c.oracleLine()))
 	fresh := make([]string, len(c.Calls))
+	signed := 0
 	for n := range c.Calls {
 		k := &c.Calls[n]
 		one := Case{Label: c.Label, Version: c.Version, Lock: c.Lock, Ins: c.Ins, Outs: c.Outs, Spent: c.Spent, Calls: c.Calls[:n+1]}
@@ -394,11 +396,19 @@ func runCase(c *Case) []string {
 		if defined && refPre != nil && mk == "hashed" && mpre != hx(refPre) {
 			r.TieFail("model-preimage-"+k.Kind, fmt.Sprintf("model preimage differs from the reference preimage (call %d: %s input %d hash type 0x%x)", n, k.Kind, k.Idx, k.Ht), one)
 		}
+		// (5) the signature check around the taproot digest: real CheckSchnorrSignature = the model's schnorrPlan
+		if k.Kind == "tap" && k.Idx >= 0 {
+			if !schnorrTie(c, shared, n, k, mk, mdig, got, &signed, one) {
+				return nil
+			}
+		}
 	}
 	if c.Par > 0 {
 		// the concurrent callers run in a child process: a run-time fatal error there (deadlock on hashLock, concurrent
 		// map access, a crash no recover() can catch) is an observation about THIS transaction and call list
-		bad, crash := askChild(&parReq{Group: []parMember{{c, fresh}}, Rounds: 1})
+		q := &parReq{Group: []parMember{{c, fresh}}, Rounds: 1}
+		bad, crash := askChild(q)
+		raceNote(q, map[string]interface{}{"group": []*Case{c}})
 		r.Eval(c.Label+":parallel", "")
 		switch {
 		case crash != "":
@@ -420,6 +430,7 @@ type parReq struct {
 	Group  []parMember `json:"group,omitempty"`
 	Multis []*Built    `json:"multis,omitempty"`
 	Node   *nodeReq    `json:"node,omitempty"`
+	Canary bool        `json:"canary,omitempty"` // race-detector child only: perform one deliberate data race
 	Rounds int         `json:"rounds"`
 }
 type parRep struct {
@@ -437,7 +448,7 @@ func childMain() {
 			var q parReq
 			bad := json.Unmarshal(line, &q) != nil
 			kinds := 0
-			for _, present := range []bool{len(q.Group) > 0, len(q.Multis) > 0, q.Node != nil} {
+			for _, present := range []bool{len(q.Group) > 0, len(q.Multis) > 0, q.Node != nil, q.Canary} {
 				if present {
 					kinds++
 				}
@@ -457,7 +468,9 @@ func childMain() {
 				os.Exit(4)
 			}
 			var res string
-			if len(q.Group) > 0 {
+			if q.Canary {
+				raceCanary()
+			} else if len(q.Group) > 0 {
 				res = runDigestsParallel(q.Group, q.Rounds)
 			} else if q.Node != nil {
 				res = runNodeChild(q.Node, q.Rounds)
@@ -503,6 +516,8 @@ type parChild struct {
 
 var pc *parChild
 var parChildrenStarted int
+var childExe string   // "" = this executable; the race stream puts its -race build here
+var childEnv []string // nil = the environment of this process
 
 const parTimeout = 90 * time.Second
 
@@ -512,7 +527,11 @@ func parStart() *parChild {
 		fmt.Fprintln(os.Stderr, "c02: cannot find own executable:", err)
 		os.Exit(3)
 	}
+	if childExe != "" {
+		exe = childExe
+	}
 	p := &parChild{cmd: exec.Command(exe, "-child"), errb: &headBuf{}}
+	p.cmd.Env = childEnv
 	p.cmd.Stderr = p.errb
 	p.in, _ = p.cmd.StdinPipe()
 	so, _ := p.cmd.StdoutPipe()
@@ -634,6 +653,9 @@ func specCheck(c *Case) {
 	o.MustAsk(c.oracleLine())
 	for n := range c.Calls {
 		k := &c.Calls[n]
+		if k.NoSpec && !r.Thorough() {
+			continue
+		}
 		defined, want, refPre := refCall(t, spent, k)
 		got := specCall(k)
 		exp := "none"
@@ -679,10 +701,18 @@ func replay(path string) {
 		LifeM  *LifeM      `json:"lifemulti"`
 		Node   *NodeBlock  `json:"node"`
 		Caller *CallerHist `json:"caller"`
+		Sign   *SignCase   `json:"sign"`
+		Race   bool        `json:"race"`
 	}
 	if json.Unmarshal(doc.Replay, &probe) == nil && probe.E2E != nil {
 		runE2E(probe.E2E)
 		return
+	}
+	if probe.Race {
+		// found by the race-detector child: the sequential / ordinary concurrent replay below, then the same requests there
+		raceReplay = true
+		raceBuildStart()
+		defer raceStream()
 	}
 	// a failure under concurrency depends on the schedule: many more rounds than in the run that found it
 	if len(probe.Multi) > 0 {
@@ -699,6 +729,10 @@ func replay(path string) {
 	}
 	if probe.Caller != nil {
 		runCallerHist(probe.Caller)
+		return
+	}
+	if probe.Sign != nil {
+		runSign(probe.Sign)
 		return
 	}
 	if json.Unmarshal(doc.Replay, &probe) == nil && probe.Life != nil {
@@ -742,15 +776,17 @@ func main() {
 		"tx.AllocVerVars() was called before the first digest request and the caller installed the spent outputs of this transaction (a nil TxVerVars - legacy digest unaffected, nil dereference on hashLock in WitnessSigHash / TaprootSigHash - is part of the life-cycle model and compared model-vs-code in the histories over several objects only)",
 		"AllocVerVars / Clean are not called concurrently with a digest request on the same transaction object (no caller in /repo does); the histories over several transaction objects (AllocVerVars, requests, Clean, interleaved) are sequential",
 		"external expectations exist for the legacy algorithm (Core's sighash.json, 500 vectors) and for BIP143 (corpus/C02/bip143_external.json: the signed BIP143 example transactions of /repo/lib/test/tx_valid.json whose authors' signatures must verify over the digest of code = reference = Lean Spec, two sighash values stated in that file, and the sighash values of the BIP143 text recalled offline and kept only because code, reference and Spec reproduce them). For BIP341 NO external vectors are available offline (the wallet-test-vectors are not in /repo; lib/test/bip341_script_tests.json is empty): there the Go reference ref.go and the Lean Spec - same author - are the only expectations, so a misreading of BIP341 shared by both is noticed only where gocoin disagrees",
-		"each digest request is one atomic step (the functions hold hashLock for their whole body) and the tagged-hash objects handed out by btc.Hasher are private to the call: the model has no goroutines and treats tagged hashes as pure functions; both are outside the theorems and are covered only by the concurrent streams (child process)",
+		"each digest request is one atomic step (the functions hold hashLock for their whole body) and the tagged-hash objects handed out by btc.Hasher are private to the call: the model has no goroutines and treats tagged hashes as pure functions; both are outside the theorems and are covered only by the concurrent streams (child process) and by the same requests in a child built with Go's race detector (every unsynchronised access inside gocoin that happens there is a reported failure, independent of timing)",
 		"which script code / code-separator position the interpreter hands to the digest functions at each executed CHECKSIG / CHECKMULTISIG / CHECKSIGADD is C01's model; here it is tested end to end (scripts with several checks and code separators)",
 		"legacy: script codes that do not decode into opcodes are outside the specification (every caller fails on them); model and code are still compared there",
+		"btc.SchnorrVerify / EcdsaVerify are C03's: here CheckSchnorrSignature is compared with the model's plan (fail / panic / verify this key, signature, message) and the verdict on that triple is the independent BIP340 verifier's; Tx.Sign / Tx.SignWitness have no Lean model - their signatures are judged by the independent ECDSA verifier over the reference digest",
 	}
 	if r.Replay != "" {
 		replay(r.Replay)
 		parStop()
 		r.Finish("replay of one recorded case", "replay")
 	}
+	raceBuildStart()
 	g := r.Rng
 	secs := map[string]float64{}
 	last := time.Now()
@@ -824,12 +860,18 @@ func main() {
 		delSigCase(g, i)
 	}
 	lap("5-delsig")
+	// 6. the signing side: Tx.Sign / Tx.SignWitness over a hash-type sweep, verified over the reference digest
+	signStream(g)
+	lap("6-sign-then-verify")
+	// 7. a slice of the concurrent requests of 4 / 4b / 4c again, in a child built with the race detector
+	raceStream()
+	lap("7-race-detector-child")
 	parStop()
 	r.Extra["seconds_by_stream"] = secs
 	r.Extra["oracle_requests"] = o.N
 	r.Extra["parallel_child_processes_started"] = parChildrenStarted
-	r.Finish("corpus (sighash.json, external BIP143 examples, boundary transactions, F1 witness), then random transactions (0..n inputs/outputs, CompactSize boundaries 252/253, random version/locktime/sequence) with a hash-type sweep per transaction (all 256 byte values in thorough, edge set + random in quick, 4-byte types for legacy/BIP143) for the three algorithms on ONE object, call-order permutations and parallel callers on one object and on several transaction objects at the same time; whole transactions with 1..8 really spent inputs out of 1..2500 (bare/P2SH/P2WSH/P2SH-P2WSH scripts and tapscripts with 1..4 CHECKSIG / CHECKMULTISIG / CHECKSIGADD checks, executed and unexecuted code separators between them, P2PKH/P2WPKH/key path) verified sequentially on one object and by one goroutine per input; whole blocks (1..3 transactions after a coinbase, 2..2500 inputs, every input verifiable: signed spends of all kinds next to anyone-can-spend inputs, or every input signed; funded by UTXO records of 1..64 outputs or by outputs of an earlier transaction of the block; one block in four with one signature over another digest) through the node's own caller Chain.ProcessBlockTransactions, 12..24 rounds on fresh transaction objects with three start disciplines of the node's workers; interleavings of storing the next spent output and digest requests on one object (the code's order, overlapping but safe, arbitrary); histories over 2..5 transaction objects (AllocVerVars with Spent_outputs assigned or appended / digest requests or whole spends / Clean / re-allocation, interleaved; the real code runs a whole history in one goroutine without I/O in between); a case is distinct by (algorithm, input, hash type, hash of transaction+script) and non-trivial when the input index is in range",
-		"Every digest of the real code is compared with an independent reference (ref.go) and with the Lean model; the model's preimage with the reference preimage; results on a shared object with results on a fresh object; undefined taproot cases are attacked with a real BIP340 signature over the digest handed out; end-to-end spends (P2PKH/bare with code separators and embedded signatures - including pre-BIP66 spends whose script code embeds its own lax-DER padded signature as a push of 75/76/77/…/255/256 bytes -, P2WPKH/P2WSH, taproot key and script path with annex) are signed by the independent signer over the reference digest and must verify, and must not verify over any other digest; the real delSig (verif hook) is compared with the reference FindAndDelete and the model at every push-opcode boundary; scripts with several signature checks are signed per check with the script code / separator position of THAT check (and, on purpose, with another check's) and must verify exactly when every signature is over its own reference digest; in histories over several transaction objects every digest / verdict must equal the one of a fresh object of the same transaction and the reference, and the Lean life-cycle model (lifeStep) is run through the same history; a block handed to Chain.ProcessBlockTransactions must be accepted exactly when every signature is over its own reference digest (else rejected for its scripts), and every spend must verify again on the transaction objects the node left behind; on one object whose Spent_outputs is filled entry by entry the model answers every request as the code does (panic on a nil entry, later answers from the half-filled cache included) and, as long as every request read stored entries only, each result equals the fresh-object result and the reference; concurrent callers (several on one transaction object; several transaction objects at once; one goroutine per spent input through script.VerifyTxScript, fresh object per round, three start disciplines) run in a child process so that a crash, a hang, a wrong digest or a wrong verdict under concurrency is a reported failure with the transactions and call lists at hand.")
+	r.Finish("corpus (sighash.json, external BIP143 examples, boundary transactions, F1 witness), then random transactions (0..n inputs/outputs, CompactSize boundaries 252/253, random version/locktime/sequence) with a hash-type sweep per transaction (all 256 byte values in thorough, edge set + random in quick, 4-byte types for legacy/BIP143) for the three algorithms on ONE object, call-order permutations and parallel callers on one object and on several transaction objects at the same time; whole transactions with 1..8 really spent inputs out of 1..2500 (bare/P2SH/P2WSH/P2SH-P2WSH scripts and tapscripts with 1..4 CHECKSIG / CHECKMULTISIG / CHECKSIGADD checks, executed and unexecuted code separators between them, P2PKH/P2WPKH/key path) verified sequentially on one object and by one goroutine per input; whole blocks (1..3 transactions after a coinbase, 2..2500 inputs, every input verifiable: signed spends of all kinds next to anyone-can-spend inputs, or every input signed; funded by UTXO records of 1..64 outputs or by outputs of an earlier transaction of the block; one block in four with one signature over another digest) through the node's own caller Chain.ProcessBlockTransactions, 12..24 rounds on fresh transaction objects with three start disciplines of the node's workers; interleavings of storing the next spent output and digest requests on one object (the code's order, overlapping but safe, arbitrary); histories over 2..5 transaction objects (AllocVerVars with Spent_outputs assigned or appended / digest requests or whole spends / Clean / re-allocation, interleaved; the real code runs a whole history in one goroutine without I/O in between); Tx.Sign / Tx.SignWitness on every defined hash type and sign-extension edge bytes; the first concurrent requests again in a race-detector build; a case is distinct by (algorithm, input, hash type, hash of transaction+script) and non-trivial when the input index is in range",
+		"Every digest of the real code is compared with an independent reference (ref.go) and with the Lean model; the model's preimage with the reference preimage; results on a shared object with results on a fresh object; undefined taproot cases are attacked with a real BIP340 signature over the digest handed out; after every taproot digest request the real CheckSchnorrSignature (same object) is compared with the model's plan for signatures of eight shapes (good, one bit off, foreign, 63/66/0 bytes, explicit 0x00), the model's annex hash with the reference; end-to-end taproot verdicts with the model's verdict derived from its own annex hash; a recovered panic of VerifyTxScript is a failure, not 'invalid'; end-to-end spends (P2PKH/bare with code separators and embedded signatures - including pre-BIP66 spends whose script code embeds its own lax-DER padded signature as a push of 75/76/77/…/255/256 bytes -, P2WPKH/P2WSH, taproot key and script path with annex) are signed by the independent signer over the reference digest and must verify, and must not verify over any other digest; the real delSig (verif hook) is compared with the reference FindAndDelete and the model at every push-opcode boundary; scripts with several signature checks are signed per check with the script code / separator position of THAT check (and, on purpose, with another check's) and must verify exactly when every signature is over its own reference digest; in histories over several transaction objects every digest / verdict must equal the one of a fresh object of the same transaction and the reference, and the Lean life-cycle model (lifeStep) is run through the same history; a block handed to Chain.ProcessBlockTransactions must be accepted exactly when every signature is over its own reference digest (else rejected for its scripts), and every spend must verify again on the transaction objects the node left behind; on one object whose Spent_outputs is filled entry by entry the model answers every request as the code does (panic on a nil entry, later answers from the half-filled cache included) and, as long as every request read stored entries only, each result equals the fresh-object result and the reference; concurrent callers (several on one transaction object; several transaction objects at once; one goroutine per spent input through script.VerifyTxScript, fresh object per round, three start disciplines) run in a child process so that a crash, a hang, a wrong digest or a wrong verdict under concurrency is a reported failure with the transactions and call lists at hand.")
 }
 
 func mustBigHex(s string) []byte { return unhx(s) }
